@@ -26,7 +26,9 @@ def run(pid, tier, seed, replay=None):
                       found_input=False)
         return ctx.finish('build failed', 'check %s' % pid)
     ctx.binary, ctx.comp_ok = binary, comp_ok
-    ok, out = core.coq_make()
+    # only what the case files of this check import; Properties/<pid>.v and its own dependencies are built by check_proofs
+    # (a Gen/ file left behind by a run of C02/C10 on another tree must not break the checks of other properties)
+    ok, out = core.coq_make(['Check/Judge.vo'])
     if not ok:
         ctx.violation('the Coq development no longer builds', {'broken': 'make', 'log': out[-3000:]}, found_input=False)
         return ctx.finish('coq build failed', 'check %s' % pid)
@@ -37,8 +39,18 @@ def run(pid, tier, seed, replay=None):
         else:
             ctx.replay = None
         return CHECKS[pid](ctx)
+    except Exception:
+        # the driver met behaviour of the code it cannot interpret (never happens on the tree the model was built for):
+        # the correspondence is broken, the property is no longer shown to hold
+        import traceback
+        tb = traceback.format_exc()
+        log(tb[-1500:])
+        ctx.violation('the harness could not interpret what the code returned (unexpected shape of an answer)',
+                      {'broken': 'correspondence harness of %s' % pid, 'traceback': tb[-3000:]}, found_input=False)
+        return ctx.finish('driver exception', './check %s' % pid)
     finally:
         ctx.pipe.close()
+        core.cleanup_scratch()
 
 
 def n_cases(ctx, quick, thorough):
@@ -212,7 +224,7 @@ def shrink(ctx, req, still_fails, budget=40):
 
 
 def method_check(ctx, col, gens, n_quick, n_thorough, rule, agree_col='agree', agree_scope=None,
-                 finding_facts=None, code2_finding=None, excuse=None, search_gens=None, also_cols=()):
+                 finding_facts=None, code2_finding=None, excuse=None, search_gens=None, also_cols=(), extra_corr=None):
     """gens: list of (weight, generator(rnd) -> request). col: checker column name.
     agree_col: which correspondence column ties the model to the code for this property."""
     pid = ctx.pid
@@ -250,7 +262,9 @@ def method_check(ctx, col, gens, n_quick, n_thorough, rule, agree_col='agree', a
             def still(c, ci=ci):
                 r2, v2, _ = e2e.run_all(ctx.pipe, [c], pid + 's')
                 return len(v2[0]) > ci and v2[0][ci] == 1
-            small = shrink(ctx, req, still) if not ctx.replay else req
+            # shrink only the first failing cases: every shrink step is a round trip through the code and coqc
+            ctx.shrunk = getattr(ctx, 'shrunk', 0) + 1
+            small = shrink(ctx, req, still) if (not ctx.replay and ctx.shrunk <= 2) else req
             r3 = ctx.pipe.call({'op': 'trace', 'req': small})
             ctx.violation('checker %s_ok rejects what the implementation returned' % col,
                           {'request': small, 'original_request': req, 'response': r3.get('resp') or r3.get('err'),
@@ -264,6 +278,8 @@ def method_check(ctx, col, gens, n_quick, n_thorough, rule, agree_col='agree', a
                 ctx.count('correspondence/excused')
                 continue
             broken.append((req, res, v))
+    if extra_corr and not ctx.replay:
+        broken.extend(extra_corr(ctx, reqs, ress))
     if broken and not any(vv[2] for vv in ctx.violations) and not ctx.replay:
         # the correspondence broke but every observed output satisfies the checker: search for a failing input
         sg = search_gens or gens
@@ -331,7 +347,7 @@ def c03(ctx):
 def c05_matrices(ctx):
     """raw credibility matrices over {0, 1/4, 1/2, 3/4, 1} (and some real ones) through the exported RankAscending / RankDescending"""
     rnd = ctx.rnd
-    if not ctx.comp_ok:
+    if 'electre' in core.COMP_SKIPPED:
         ctx.notes.append('component overlay for ELECTRE no longer compiles; matrix-level correspondence skipped')
         return
     terms, keep = [], []
@@ -366,16 +382,67 @@ def c05_matrices(ctx):
                       {'component': 'rank'})
 
 
+def veto_grid(rnd):
+    """integer values 0..10 on 3-4 criteria with q < p < v present everywhere: most ordered pairs have several criteria in the
+    veto zone, of different strength (partial and full vetoes, above and below the concordance)"""
+    req = gen.electre_request(rnd, n_alts=rnd.choice([3, 4, 4, 5]), n_crits=rnd.choice([3, 3, 4]))
+    q, p = rnd.choice([(1.0, 3.0), (1.0, 2.0), (0.5, 2.5)])
+    for c in req['criteria']:
+        c['type'] = 'gain' if rnd.random() < 0.75 else 'cost'
+        c.pop('valuesRange', None)
+        req['methodParameters']['electreCriteria'][c['id']] = {'k': rnd.choice([1.0, 2.0, 3.0, 3.0]), 'q': {'a': 0, 'b': q}, 'p': {'a': 0, 'b': p},
+                                                               'v': {'a': 0, 'b': rnd.choice([7.0, 7.0, 5.0, 9.0])}}
+    for a in req['knownAlternatives']:
+        for c in req['criteria']:
+            a['criteria'][c['id']] = float(rnd.randint(0, 10))
+    if rnd.random() < 0.7:
+        req['methodParameters'].pop('electreDistillation', None)
+    return req
+
+
+def c05_cred(ctx, reqs, ress):
+    """the credibility matrix the code derives (its own evaluateCredibilityMatrix, reported by the trace) against the model's"""
+    if 'cred' in core.COMP_SKIPPED:
+        ctx.notes.append('component overlay for the credibility matrix no longer compiles; matrix correspondence skipped')
+        return []
+    rnd = ctx.rnd
+    more = [veto_grid(rnd) for _ in range(n_cases(ctx, 250, 5000))]
+    mres = [ctx.pipe.call({'op': 'trace', 'req': r}) for r in more]
+    terms, keep = [], []
+    for req, res in list(zip(reqs, ress)) + list(zip(more, mres)):
+        if req.get('preferenceFunction') != 'electreIII' or not isinstance(res.get('cred'), list) or res.get('evalInput') is None:
+            continue
+        m = res['cred']
+        terms.append('(mkCC %s %s)' % (emit.cstate_d('electreIII', res['evalInput']), emit.clist(emit.clist(core.fhex(x) for x in row) for row in m)))
+        keep.append((req, res))
+        ctx.count('credibility/n=%d' % len(m))
+        ctx.evaluations += 1
+    if not terms:
+        return []
+    verd, logs = core.run_cases('C05c', 'judge_cred', terms, shard=150)
+    out = []
+    for (req, res), v in zip(keep, verd):
+        if v and v[0] == 20:
+            core.DRIFT += 1
+        elif not v or v[0] != 0:
+            out.append((req, res, [3 if (v and v[0] == 3) else (v[0] if v else 99)]))
+    if out:
+        ctx.notes.append('credibility matrix of the code differs from the model on %d of %d states' % (len(out), len(keep)))
+    return out
+
+
 @check('C05')
 def c05(ctx):
     ctx.before_finish = c05_matrices
     return method_check(
-        ctx, 'C05', [(3, gen_method('electreIII')), (1, (lambda rnd: gen.biased_request(rnd, method='electreIII', prob_mix=False)))], 300, 6000,
+        ctx, 'C05', [(3, gen_method('electreIII')), (1, (lambda rnd: gen.biased_request(rnd, method='electreIII', prob_mix=False))), (2, veto_grid)], 300, 6000,
         'random electreIII requests: gain and cost criteria, every presence pattern of q<p<v, ties on criteria and identical '
         'alternatives, default and custom distillation functions; plus raw credibility matrices over {0, 1/4, .., 1} of size 2-6 through the '
         'exported RankAscending / RankDescending (ex-aequo best sets needing inner distillations, classes removed from the middle); '
-        'distinct = request shape x outcome shape, matrix size x function x result',
-        agree_col='agree')
+        'distinct = request shape x outcome shape, matrix size x function x result; plus the credibility matrix of every evaluated state '
+        '(and of 250+ integer-grid requests with several partial vetoes per pair) against the model entry by entry; when a correspondence '
+        'breaks a search phase of 1500+ such requests looks for indices that differ',
+        agree_col='agree', extra_corr=c05_cred, search_gens=[(1, veto_grid)])
 
 
 @check('C11')
@@ -721,6 +788,9 @@ def c08(ctx):
             en = e2e.enabled_biases(req)
             if not en:
                 continue
+            if len(base['resp']['biases']) != len(en):
+                ctx2.violation('the response does not echo one entry per non-disabled bias', {'request': req, 'echo': base['resp']['biases']}, {})
+                continue
             fired = [b.get('props') is not None for b in base['resp']['biases']]
             # (a) a disabled entry (even with an unknown name) is equivalent to leaving it out
             r2 = dict(req, biases=list(req['biases']))
@@ -743,7 +813,9 @@ def c08(ctx):
                     b['applyProbability'] = rnd.choice([0.0, 1.0, round(rnd.random(), 3)])
             o3 = ctx2.pipe.call({'op': 'decide', 'req': r3})
             ctx2.count('metamorphic/others-changed')
-            if o3.get('ok'):
+            if o3.get('ok') and len(o3['resp']['biases']) != len(en3):
+                ctx2.violation('the response does not echo one entry per non-disabled bias', {'request': r3, 'echo': o3['resp']['biases']}, {})
+            elif o3.get('ok'):
                 f3 = o3['resp']['biases'][i].get('props') is not None
                 mix = en[i].get('name') == 'criteriaMixing'
                 if f3 != fired[i] and not mix:
@@ -755,7 +827,9 @@ def c08(ctx):
                 e2e.enabled_biases(r4)[i]['applyProbability'] = p
                 o4 = ctx2.pipe.call({'op': 'decide', 'req': r4})
                 ctx2.count('metamorphic/prob-%s' % p)
-                if o4.get('ok') and en[i].get('name') != 'criteriaMixing':
+                if o4.get('ok') and len(o4['resp']['biases']) != len(en):
+                    ctx2.violation('the response does not echo one entry per non-disabled bias', {'request': r4, 'echo': o4['resp']['biases']}, {})
+                elif o4.get('ok') and en[i].get('name') != 'criteriaMixing':
                     f4 = o4['resp']['biases'][i].get('props') is not None
                     if f4 != must:
                         ctx2.violation('applyProbability %s %s' % (p, 'did not fire' if must else 'fired'),
@@ -830,7 +904,7 @@ def c15(ctx):
 def c14(ctx):
     ctx.check_proofs()
     rnd = ctx.rnd
-    if not ctx.comp_ok:
+    if 'levels' in core.COMP_SKIPPED:
         ctx.notes.append('component overlay for level sources no longer compiles; falling back to the heuristics checkers only')
     cases = []
     if ctx.replay and 'levels_case' in ctx.replay:
@@ -871,6 +945,10 @@ def c14(ctx):
                             'MethodParameters': {'Function': c['function'], 'Params': c['params']}})
         if r.get('ok') and r.get('truncated'):
             ctx.violation('a level series does not end (more than %d levels)' % c['max'], {'levels_case': c}, {'function': c['function']})
+            continue
+        if r.get('ok') and 'again' in r and (r['again'] != r['levels'] or r.get('dataUnchanged') is False):
+            ctx.violation('generating the series a second time from the same data gives other levels (or the data were modified)',
+                          {'levels_case': c, 'result': r}, {'function': c['function']})
             continue
         obs = 'None' if not r.get('ok') else '(Some %s)' % emit.clist(emit.cmap(t) for t in r['levels'])
         terms.append('(mkLC %s %s %s %s %s)' % ('true' if c['family'] == 'increasing' else 'false', emit.cstr(c['function']),
@@ -1012,6 +1090,9 @@ def c02(ctx):
     finally:
         for s in servers:
             s.close()
+    # after any other requests: short histories (same-method parameter variants over-weighted) against a process that served nothing else
+    if not ctx.replay:
+        history_runs(ctx, n_cases(ctx, 30, 600), modes=('fresh',))
     # the model (a function of the request and of the streams of its seeds) agrees with the service
     sub = [r for r in reqs if True][:n_cases(ctx, 60, 600)]
     ress, verd, logs = e2e.run_all(ctx.pipe, sub, 'C02')
@@ -1025,8 +1106,67 @@ def c02(ctx):
         'each request is sent to the real service once, then again in the same process after all the others in another order, and to fresh '
         'processes (Go randomises map iteration per range statement and per process); accepted answers must be byte-identical, verdicts equal; '
         'requests: all methods and bias combinations, map-heavy ones over-weighted (Choquet alternatives holding chains of near-ties are '
-        'repeated four times per process), every ninth made invalid; distinct = request shape x outcome',
+        'repeated four times per process), every ninth made invalid; plus histories of 2-6 calls whose answers are compared with those of '
+        'processes that served nothing else; distinct = request shape x outcome',
         './check C02')
+
+
+def history_runs(ctx, nh, modes=('shared', 'fresh'), allc=None, cur_in=None):
+    """histories of 2-6 calls drawn from a pool of 1-3 requests (same-method parameter variants over-weighted): every answer must equal the
+    answer of a process that has served nothing else; with mode 'shared' the same decoded Go values are reused across calls"""
+    rnd = ctx.rnd
+    others = [g for g in (allc, cur_in) if g] + [gen.any_request]
+    for _ in range(nh):
+        if rnd.random() < 0.6:
+            # requests of one method with different (optional) parameters: what one call sets must not leak into the next
+            m = rnd.choice(gen.METHODS + ['electreIII', 'electreIII'])
+            pool = [gen.any_request(rnd, m) for _ in range(rnd.randint(2, 3))]
+            if m == 'electreIII':
+                if rnd.random() < 0.5:   # the same problem with and without its own distillation function
+                    pool[1] = json.loads(json.dumps(pool[0]))
+                pool[0]['methodParameters'].pop('electreDistillation', None)
+                pool[1]['methodParameters']['electreDistillation'] = rnd.choice([{'a': 0, 'b': 0.05}, {'a': -0.25, 'b': 0.5}, {'a': 0, 'b': 0.125},
+                                                                                 {'a': 0, 'b': 1.0}, {'a': 0, 'b': 1.0}, {'a': 0, 'b': 0.0}])
+            pool = [gen.add_biases(rnd, r, prob_mix=False) if rnd.random() < 0.3 else r for r in pool]
+        else:
+            pool = [rnd.choice(others)(rnd) for _ in range(rnd.randint(1, 3))]
+        seq = [rnd.choice(pool) for _ in range(rnd.randint(2, 6))]
+        if len(pool) > 1 and rnd.random() < 0.7:
+            # every request both before and after every other one
+            order = list(pool)
+            rnd.shuffle(order)
+            seq = order + order[::-1]
+        alone = {}
+        for r in pool:
+            # the answer to the request alone: a process that has served nothing else
+            k = json.dumps(r, sort_keys=True)
+            fp = core.Pipe(ctx.binary)
+            alone[k] = fp.call({'op': 'decide', 'req': r})
+            fp.close()
+        for mode in modes:
+            hp = core.Pipe(ctx.binary)
+            out = hp.call({'op': 'hist', 'reqs': seq, 'mode': mode})
+            hp.close()
+            ctx.evaluations += 1
+            ctx.signatures.add(('hist', mode, len(seq), len(pool), tuple(x.get('preferenceFunction') for x in seq)))
+            ctx.count('history/' + mode)
+            if not out.get('ok'):
+                ctx.violation('history run failed in the harness', {'broken': 'hist op', 'answer': out}, found_input=False)
+                continue
+            for i, (r, c) in enumerate(zip(seq, out['calls'])):
+                want = alone[json.dumps(r, sort_keys=True)]
+                got = c['res']
+                same = (got.get('ok') == want.get('ok')) and (not got.get('ok') or got.get('resp') == want.get('resp'))
+                if not c['requestUnchanged']:
+                    ctx.violation('call %d of a history modified its request value (%s Go values)' % (i, mode),
+                                  {'history': seq, 'mode': mode, 'call': i}, {'method': r.get('preferenceFunction')})
+                if not c['earlierIntact']:
+                    ctx.violation('call %d of a history modified a result returned by an earlier call' % i,
+                                  {'history': seq, 'mode': mode, 'call': i}, {'method': r.get('preferenceFunction')})
+                if not same:
+                    ctx.violation('the answer to a request depends on the requests processed before it',
+                                  {'history': seq, 'mode': mode, 'call': i, 'alone': want.get('resp') or want.get('err'),
+                                   'in_history': got.get('resp') or got.get('err')}, {'method': r.get('preferenceFunction')})
 
 
 def c09_extra(ctx, req, res, info, v, facts):
@@ -1056,51 +1196,7 @@ def c09(ctx):
         if res.get('requestUnchanged') is False:
             ctx.violation('MakeDecision modified the request value it was handed', {'request': req}, {'method': req.get('preferenceFunction')})
     # histories: the same Go values are reused across calls; every earlier result must stay intact; the answer must not depend on history
-    rnd = ctx.rnd
-    nh = n_cases(ctx, 60, 1200)
-    for _ in range(nh):
-        if rnd.random() < 0.6:
-            # requests of one method with different (optional) parameters: what one call sets must not leak into the next
-            m = rnd.choice(gen.METHODS)
-            pool = [gen.any_request(rnd, m) for _ in range(rnd.randint(2, 3))]
-            if m == 'electreIII':
-                pool[0]['methodParameters'].pop('electreDistillation', None)
-                pool[1]['methodParameters']['electreDistillation'] = rnd.choice([{'a': 0, 'b': 0.05}, {'a': -0.25, 'b': 0.5}, {'a': 0, 'b': 0.125}])
-            pool = [gen.add_biases(rnd, r, prob_mix=False) if rnd.random() < 0.3 else r for r in pool]
-        else:
-            pool = [rnd.choice([allc, cur_in, gen.any_request])(rnd) for _ in range(rnd.randint(1, 3))]
-        seq = [rnd.choice(pool) for _ in range(rnd.randint(2, 6))]
-        alone = {}
-        for r in pool:
-            # the answer to the request alone: a process that has served nothing else
-            k = json.dumps(r, sort_keys=True)
-            fp = core.Pipe(ctx.binary)
-            alone[k] = fp.call({'op': 'decide', 'req': r})
-            fp.close()
-        for mode in ('shared', 'fresh'):
-            hp = core.Pipe(ctx.binary)
-            out = hp.call({'op': 'hist', 'reqs': seq, 'mode': mode})
-            hp.close()
-            ctx.evaluations += 1
-            ctx.signatures.add(('hist', mode, len(seq), len(pool), tuple(x.get('preferenceFunction') for x in seq)))
-            ctx.count('history/' + mode)
-            if not out.get('ok'):
-                ctx.violation('history run failed in the harness', {'broken': 'hist op', 'answer': out}, found_input=False)
-                continue
-            for i, (r, c) in enumerate(zip(seq, out['calls'])):
-                want = alone[json.dumps(r, sort_keys=True)]
-                got = c['res']
-                same = (got.get('ok') == want.get('ok')) and (not got.get('ok') or got.get('resp') == want.get('resp'))
-                if not c['requestUnchanged']:
-                    ctx.violation('call %d of a history modified its request value (%s Go values)' % (i, mode),
-                                  {'history': seq, 'mode': mode, 'call': i}, {'method': r.get('preferenceFunction')})
-                if not c['earlierIntact']:
-                    ctx.violation('call %d of a history modified a result returned by an earlier call' % i,
-                                  {'history': seq, 'mode': mode, 'call': i}, {'method': r.get('preferenceFunction')})
-                if not same:
-                    ctx.violation('the answer to a request depends on the requests processed before it',
-                                  {'history': seq, 'mode': mode, 'call': i, 'alone': want.get('resp') or want.get('err'),
-                                   'in_history': got.get('resp') or got.get('err')}, {'method': r.get('preferenceFunction')})
+    history_runs(ctx, n_cases(ctx, 60, 1200), allc=allc, cur_in=cur_in)
     ctx.sample({'history_of': 'sequences of 2-6 requests drawn from a pool of 1-3, replayed with shared Go request values and with fresh ones'}, limit=4)
     return ctx.finish(
         'traced bias sequences (all known alternatives considered; heuristics with currentChoice taken from choseToMake) with every state and '
@@ -1183,6 +1279,30 @@ def c10(ctx):
 
 
 # -------------------------------------------------------------------------------------------------
+def late_rejections(rnd, req):
+    """(what, request) pairs that pass the up-front validation but may be rejected only while the biases or the method run;
+    whatever the answer is, there must be one"""
+    out = []
+    def mod(name, f):
+        r = json.loads(json.dumps(req))
+        try:
+            if f(r) is not False:
+                out.append((name, r))
+        except (KeyError, IndexError, TypeError):
+            pass
+    n = len(req['knownAlternatives'])
+    for pos in sorted({0, n // 2, n - 1, rnd.randrange(n)}):
+        mod('undeclared extra criterion value on alternative %d' % pos, lambda r, pos=pos: r['knownAlternatives'][pos]['criteria'].update(zz_undeclared=7.0))
+    mp = req.get('methodParameters') or {}
+    if isinstance(mp.get('weights'), dict):
+        mod('superfluous weight entry', lambda r: r['methodParameters']['weights'].update(zz_undeclared=0.5))
+    if req['preferenceFunction'] == 'electreIII':
+        mod('superfluous electre criterion', lambda r: r['methodParameters']['electreCriteria'].update(
+            zz_undeclared={'k': 1.0, 'q': {'a': 0, 'b': 1.0}, 'p': {'a': 0, 'b': 2.0}}))
+    mod('huge value on one alternative', lambda r: r['knownAlternatives'][rnd.randrange(n)]['criteria'].update({r['criteria'][0]['id']: 1e300}))
+    return out
+
+
 def invalid_variants(rnd, req):
     """(constraint, request) pairs: one documented constraint violated on an otherwise valid request"""
     out = []
@@ -1406,6 +1526,26 @@ def c20(ctx):
             if not srv.alive():
                 srv.close()
                 srv = Server(ctx.binary, mem_kb=3 * 1024 * 1024)
+        # many alternatives (thresholds inside the code: batching, sort algorithms, pre-sized buffers): valid, every constraint violated,
+        # and requests that pass the up-front validation but may be rejected while the method runs
+        for m in (gen.METHODS if not ctx.replay else []):
+            for _ in range(n_cases(ctx, 1, 12)):
+                req = gen.large_request(rnd, m)
+                if rnd.random() < 0.5:
+                    req = gen.add_biases(rnd, req, prob_mix=False)
+                st, j = shot(json.dumps(req).encode(), 'valid request with many alternatives', None, req)
+                ctx.signatures.add(('large', m, st))
+                ctx.count('large/' + m)
+                inv = invalid_variants(rnd, req)
+                for name, r in (inv if not ctx.quick else rnd.sample(inv, min(len(inv), 8))):
+                    st2, _ = shot(json.dumps(r).encode(), name + ' (many alternatives)', 400, r)
+                    ctx.signatures.add(('large-invalid', name, m, st2))
+                for name, r in late_rejections(rnd, req):
+                    st2, _ = shot(json.dumps(r).encode(), name + ' (many alternatives)', None, r)
+                    ctx.signatures.add(('large-late', name, m, st2))
+                if not srv.alive():
+                    srv.close()
+                    srv = Server(ctx.binary, mem_kb=3 * 1024 * 1024)
         # liveness after the whole history
         st, j = shot(json.dumps(gen.utility_request(rnd)).encode(), 'liveness probe after the history', 200)
     finally:
